@@ -162,6 +162,39 @@ func (g *gen) guarded() func() {
 
 func (g *gen) pick(xs ...string) string { return xs[g.n(len(xs))] }
 
+// nearOperands returns declarations and two comparisons P1 == c1 (false at run
+// time) and P2 == c2 (true at run time) whose left operands differ in one
+// sub-expression only, or (one time in five) not at all.
+func (g *gen) nearOperands() (pre, p1, c1, p2, c2 string) {
+	pre = "\tu := \"ab\" + s\n\tys := append([]int{4, 5, 6}, xs...)\n\tst := St{Base: Base{ID: 7}, A: 8}\n\tmm := map[string]int{\"a\": 1, \"b\": 2}\n\tpa, pb := &ys[0], &ys[1]\n\tfn := func(k int) int { return k * 2 }\n\tvar av any = T1{A: 1}\n\t_, _, _, _, _, _, _, _ = u, ys, st, mm, pa, pb, fn, av\n"
+	type pr struct{ p1, c1, p2, c2 string }
+	pairs := []pr{
+		{"u[:1]", "\"x\"", "u[:2]", "\"ab\""},
+		{"u[0:1]", "\"b\"", "u[1:2]", "\"b\""},
+		{"u[1:2:2]", "\"a\"", "u[1:2:3]", "\"b\""},
+		{"ys[0]", "5", "ys[1]", "5"},
+		{"st.A", "7", "st.ID", "7"},
+		{"st.Base.ID", "8", "st.A", "8"},
+		{"mm[\"a\"]", "2", "mm[\"b\"]", "2"},
+		{"*pa", "5", "*pb", "5"},
+		{"fn(1)", "4", "fn(2)", "4"},
+		{"(T1{A: 1}).A", "2", "(T1{A: 2}).A", "2"},
+		{"([]int{1, 2})[0]", "2", "([]int{1, 2})[1]", "2"},
+		{"(ys[0])", "5", "(ys[1])", "5"},
+		{"-ys[0]", "-5", "-ys[1]", "-5"},
+		{"ys[0] + 1", "6", "ys[1] + 1", "6"},
+		{"len(ys[:1])", "2", "len(ys[:2])", "2"},
+		{"av.(T1).A", "2", "av.(T1).A + 1", "2"},
+		{"func() int { return 1 }()", "2", "func() int { return 2 }()", "2"},
+		{"MyInt(ys[0])", "5", "MyInt(ys[1])", "5"},
+	}
+	x := pairs[g.n(len(pairs))]
+	if g.n(5) == 0 {
+		return pre, x.p2, x.c1, x.p2, x.c2 // control: the same operand in both branches
+	}
+	return pre, x.p1, x.c1, x.p2, x.c2
+}
+
 func (g *gen) intAtom() string {
 	return g.pick("a", "b", "0", "1", "2", "3", "-1", "len(s)", "len(xs)", "int(MyInt(a))", "a", "b")
 }
@@ -538,6 +571,25 @@ var shapes = []shape{
 			return "MyInt", "\tvar x MyInt\n\tx = MyInt(" + g.intE(2) + ")\n\treturn x + 1\n"
 		}
 	}},
+	{check: "S1021", name: "decl-compound-assign", build: func(g *gen) (string, string) {
+		// near miss: the statement after the declaration is not a plain assignment
+		op := g.pick("-=", "*=", "+=", "|=", "<<=", "/=", "&^=")
+		e := g.intE(1)
+		if op == "/=" || op == "<<=" {
+			e = "(" + e + ")&3 + 1"
+		}
+		switch g.n(3) {
+		case 0:
+			return "int", "\tvar x int\n\tx " + op + " " + e + "\n\treturn x\n"
+		case 1:
+			return "int", "\tvar x int\n\tvar y int\n\ty = " + g.intE(1) + "\n\tx " + op + " " + e + "\n\treturn x + y\n"
+		default:
+			if op == "+=" {
+				return "string", "\tvar x string\n\tx += " + g.strE(1) + "\n\treturn x\n"
+			}
+			return "int", "\tvar x, y int\n\tx, y = " + g.intE(1) + ", " + g.intE(1) + "\n\tx " + op + " " + e + "\n\treturn x - y\n"
+		}
+	}},
 	{check: "S1024", name: "time-until", aliasing: true, build: func(g *gen) (string, string) {
 		tm := g.q("time")
 		recv := g.pick(tm+".Unix(int64("+g.intE(1)+"), 0)", tm+".Now().Add("+tm+".Hour * "+tm+".Duration(1+("+g.intE(1)+")&7))", "t0", "(t0)", "t0.Add("+tm+".Hour)")
@@ -598,6 +650,18 @@ var shapes = []shape{
 			return "string", pre + "\treturn string(" + recv + ".Bytes())\n"
 		}
 		return "[]byte", pre + "\treturn []byte(" + recv + ".String())\n"
+	}},
+	{check: "S1030", name: "buffer-defined-type", build: func(g *gen) (string, string) {
+		// near miss: the conversion goes to a defined string type, not to string
+		pre := "\tvar buf " + g.q("bytes") + ".Buffer\n\tbuf.WriteString(" + g.strE(1) + ")\n"
+		switch g.n(3) {
+		case 0:
+			return "MyStr", pre + "\treturn MyStr(buf.Bytes())\n"
+		case 1:
+			return "string", pre + "\th := MyStr(buf.Bytes())\n\treturn " + g.q("fmt") + ".Sprintf(\"%T %v\", h, h)\n"
+		default:
+			return "any", pre + "\tvar v any = MyStr(buf.Bytes())\n\treturn v\n"
+		}
 	}},
 	{check: "S1033", name: "guarded-delete", build: func(g *gen) (string, string) {
 		if !include("s1033-key-evaluated-once") {
@@ -712,6 +776,15 @@ var shapes = []shape{
 			excluded("tagged_switch_duplicate_constant")
 		}
 		return "int", "\tr := 0\n\tif " + x + " == 1 {\n\t\tr = 1\n\t} else if " + x + " == " + two + " || " + x + " == (b) {\n\t\tr = 2\n\t}" + els + "\n\treturn r\n"
+	}},
+	{check: "QF1003", name: "chain-near-operands", weight: 2, build: func(g *gen) (string, string) {
+		// the compared operands of the branches look alike but are not the same expression
+		// (or are, for the control): only identical operands may become the tag of a switch
+		pre, p1, c1, p2, c2 := g.nearOperands()
+		if g.n(2) == 0 {
+			return "int", pre + "\tr := 0\n\tif " + p1 + " == " + c1 + " {\n\t\tr = 1\n\t} else if " + p2 + " == " + c2 + " {\n\t\tr = 2\n\t} else {\n\t\tr = 3\n\t}\n\treturn r\n"
+		}
+		return "int", pre + "\tswitch {\n\tcase " + p1 + " == " + c1 + ":\n\t\treturn 1\n\tcase " + p2 + " == " + c2 + ":\n\t\treturn 2\n\tdefault:\n\t\treturn 3\n\t}\n"
 	}},
 	{check: "QF1004", name: "replace-all", aliasing: true, build: func(g *gen) (string, string) {
 		switch g.n(3) {
